@@ -18,7 +18,25 @@ import tempfile
 import time
 from concurrent.futures import ThreadPoolExecutor
 
-from harness.common import VERIF, enc, run_driver
+from harness.common import VERIF, run_driver
+from harness.common import enc as _common_enc
+
+# Lone surrogates (os.fsdecode of undecodable file-name bytes) are not Unicode scalar values: on the way to the
+# model — protocol lines AND the canonicalised implementation answers alike — each one travels as a private-use
+# code point of plane 15, an opaque symbol of the alphabet.  The document codec itself is tied on code points
+# (stream "json codec").
+_SURR = dict((cp, 0xF0000 + (cp - 0xD800)) for cp in range(0xD800, 0xE000))
+
+
+def enc(s):
+    return _common_enc(s.translate(_SURR))
+
+
+def print(*a, **kw):      # noqa: A001 — strings shown in replays may hold lone surrogates
+    import builtins
+    builtins.print(*[(x if isinstance(x, str) else str(x)).encode("utf-8", "backslashreplace").decode("utf-8") for x in a], **kw)
+
+
 
 from insights.cleaner import Cleaner
 from insights.core import dr, filters, hydration
@@ -337,15 +355,27 @@ WORD_CHARS = "abcxyzABZ019_éßЖ中ü"          # characters that are \\w for P
 assert all(__import__("re").match(r"\w", c) for c in WORD_CHARS)
 
 
+_POOL = {"names": None, "paths": None}
+
+
 def dotname(rng, glob_safe=False):
-    n = rng.choice(DOTNAMES)
+    n = rng.choice(_POOL["names"] or DOTNAMES)
     if glob_safe:                     # `*` does not match a leading dot, and the pattern ends in .conf
         n = n.lstrip(". ") or "x.."
     return n
 
 
-def gen_dot_spec(rng, i, host):
-    """specs in the shapes of gen_spec whose locations under data/ contain dots that are NOT parent references"""
+def gen_dot_spec(rng, i, host, names=None, paths=None):
+    """specs in the shapes of gen_spec whose locations under data/ contain dots that are NOT parent references
+    (or, with other pools, any other kind of unusual name)"""
+    _POOL["names"], _POOL["paths"] = names, paths
+    try:
+        return _gen_dot_spec(rng, i, host, paths or DOTPATHS)
+    finally:
+        _POOL["names"], _POOL["paths"] = None, None
+
+
+def _gen_dot_spec(rng, i, host, DOTPATHS):
     t = rng.choice(["file", "file", "first", "glob", "cmd", "cmd", "cmd", "longcmd", "cmdargs", "foreach", "foreach", "ccmd",
                     "cfile", "ds", "ds", "dsmulti"])
     sp = {"t": t if t != "longcmd" else "cmd", "name": "s%d" % i}
@@ -587,6 +617,67 @@ def gen_errs_world(rng, wid):
     return {"id": wid, "host": host, "specs": specs, "seed": rng.getrandbits(32), "pool": pool, "errs": True}
 
 
+# ----------------------------------------------------------------------------- names that strict UTF-8 cannot encode
+
+SURRNAMES = ["caf\udce9.conf", "\udcff\udcfe", "a\udc80b", "x\udce4\udcf6\udcfc.log", "ok.conf", "\udce9", "n\udce9 m", "é\udce9"]
+SURRPATHS = ["/etc/caf\udce9.conf", "/srv/\udcff\udcfe/x", "/a\udc80b/ok", "/var/log/x\udce4.log", "/plain/path", "/é/\udce9"]
+
+
+def gen_surr_world(rng, wid):
+    """non-UTF-8 file names (lone surrogates in the str) in relative locations, command lines, arguments, save_as names
+    and error texts; real files with such names are created on the scratch file system"""
+    host = rng.random() < 0.6
+    specs = []
+    for i in range(rng.choice([2, 3, 4, 5])):
+        r = rng.random()
+        if r < 0.12:
+            specs.append({"t": "missingfile", "name": "s%d" % i, "path": "/u%d/absent-%s" % (i, rng.choice(SURRNAMES[:4]))})
+        elif r < 0.2:
+            specs.append({"t": "raise", "name": "s%d" % i, "exc": rng.choice(["content", "generic", "calledprocess"]),
+                          "token": "tok%d-%s" % (uniq(), rng.choice(SURRNAMES[:4]))})
+        elif r < 0.35:
+            files = [gen_file(rng, "/u%d/dir/%s%d" % (i, rng.choice(SURRNAMES), j), allow_empty=not host) for j in range(rng.choice([1, 2, 3]))]
+            sa = rng.choice([None, None, "S%d%s" % (i, rng.choice(SURRNAMES))])
+            specs.append({"t": "lscollect", "name": "s%d" % i, "dir": "/u%d/dir" % i, "files": files, "save_as": sa,
+                          "raw": rng.random() < 0.4})
+        else:
+            sp = gen_dot_spec(rng, i, host, SURRNAMES, SURRPATHS)
+            if sp["t"] in ("file", "first") and rng.random() < 0.4:
+                sp = {"t": "rawfile", "name": sp["name"], "path": sp["file"]["path"], "save_as": sp["save_as"],
+                      "bytes": bytes(rng.choice([0, 10, 233, 255, 65]) for _ in range(rng.choice([1, 5, 40]))).hex()}
+            specs.append(sp)
+    return {"id": wid, "host": host, "specs": specs, "seed": rng.getrandbits(32), "pool": rng.choice([0, 0, 0, 2]), "surr": True}
+
+
+def stream_json(chk, n):
+    """the document codec on code points: json.dumps / json.loads against jsonEscape / jsonUnescape"""
+    rng = chk.rng
+    cases, impl, lines = [], [], []
+    pool = [0x61, 0x22, 0x5C, 0x0A, 0x7F, 0xE9, 0x20AC, 0xFFFF, 0x10000, 0x1F600, 0x10FFFF, 0xDC80, 0xDCE9, 0xDCFF, 0xDC00, 0xDFFF]
+    for i in range(n):
+        cps = [rng.choice(pool) for _ in range(rng.choice([0, 1, 2, 3, 5, 9]))]
+        if i % 5 == 0:            # outside what surrogateescape produces: lone HIGH surrogates (the theorem's hypothesis)
+            cps.insert(rng.randrange(len(cps) + 1), rng.choice([0xD800, 0xD83D, 0xDBFF]))
+        text = "".join(chr(c) for c in cps)
+        dumped = json.dumps(text)
+        raw = text.encode("utf-16-le", "surrogatepass")
+        units = [int.from_bytes(raw[k:k + 2], "little") for k in range(0, len(raw), 2)]
+        back = [ord(c) for c in json.loads(dumped)]
+
+        def show(ns):
+            return ".".join("%x" % x for x in ns) or "-"
+        cases.append(("json", cps)); lines.append("json\t" + show(cps)); impl.append(show(units) + "|" + show(back))
+        fs_text = not any(0xD800 <= c < 0xDC00 for c in cps)
+        chk.case(("json", tuple(cps)), bool(cps))
+        chk.count("json:" + ("text as os.fsdecode yields it" if fs_text else "with a lone high surrogate (outside the hypothesis)"))
+        if not dumped.isascii():
+            chk.failure("json.dumps wrote a non-ASCII character for %r" % cps, {"op": "json", "cps": cps})
+        if fs_text and back != cps:
+            chk.failure("text written into a document and read back differs: %r -> %r" % (cps, back), {"op": "json", "cps": cps})
+    model = run_driver("C11", lines)
+    chk.compare("json codec", cases, impl, model)
+
+
 # ----------------------------------------------------------------------------- failing writers next to successful ones
 
 SECRET = "SECRETX"          # the redaction pattern of the cleaner used in the failure-frame archives
@@ -749,7 +840,7 @@ class World(object):
         self.expect = {}
         for sp in self.desc["specs"]:
             name, t = sp["name"], sp["t"]
-            multi = t in ("glob", "foreach_collect", "foreach", "ccmd", "cfile", "dsmulti", "kglob", "lglob") or \
+            multi = t in ("glob", "foreach_collect", "foreach", "ccmd", "cfile", "dsmulti", "kglob", "lglob", "lscollect") or \
                 (t == "kds" and sp["multi"])
             raw = t in ("rawfile", "rawcmd") or bool(sp.get("raw")) or sp.get("K") in ("MyRaw", "RegRaw")
             points[name] = RegistryPoint(multi_output=multi, raw=raw, filterable=bool(sp.get("filters")),
@@ -793,6 +884,14 @@ class World(object):
 
     def impl_for(self, sp, impls):
         t, Ctx, world = sp["t"], self.Ctx, self
+        if t == "lscollect":
+            from insights.core.spec_factory import listdir
+            for f in sp["files"]:
+                self.put(f["path"], file_bytes(f["lines"], f["eol"], f["trail"]))
+            names = listdir(sp["dir"], context=Ctx)
+            impls["_l_" + sp["name"]] = names
+            return foreach_collect(names, sp["dir"] + "/%s", save_as=sp["save_as"], context=Ctx,
+                                   kind=RawFileProvider if sp["raw"] else TextFileProvider)
         if t in ("lfile", "lglob"):
             for node in sp["nodes"]:
                 self.put_node(node)
@@ -1002,7 +1101,7 @@ def user_saveas_rule(factory, s):
         return None
     if factory in ("file", "first", "rawfile", "ffile", "kfile", "lfile"):
         r = s.lstrip("/")
-    elif factory in ("glob", "foreach_collect", "kglob", "lglob"):
+    elif factory in ("glob", "foreach_collect", "kglob", "lglob", "lscollect"):
         r = s.lstrip("/")
         if r and not r.endswith("/"):
             r += "/"
@@ -1337,6 +1436,26 @@ def _run_world(w, desc, patterns, fail, count):
                      _case(desc, spec=o["sp"]["name"], elem=j), None)
     if missing_data:
         count("archive:document names a data file that is not there")
+    if desc.get("surr"):
+        # the data-file side: LISTING data/ (names decoded the way the operating system interface decodes them) yields
+        # exactly the relative locations the documents name
+        present = set()
+        droot = os.path.join(w.out, "data")
+        for d_, _, fs_ in os.walk(droot):
+            for f_ in fs_:
+                present.add(os.path.relpath(os.path.join(d_, f_), droot))
+        for o in obs:
+            doc = docs[o["name"]]
+            rs = [] if not doc or not doc.get("results") else (doc["results"] if isinstance(doc["results"], list) else [doc["results"]])
+            for j, r in enumerate(rs):
+                rel = r["object"]["relative_path"]
+                count("surr:location %s" % ("with an undecodable byte" if any(0xDC80 <= ord(c) <= 0xDCFF for c in rel) else "plain"))
+                if rel.lstrip("/") not in present:
+                    fail("no file listed under data/ maps back to the relative location the document names", _case(desc, spec=o["sp"]["name"], elem=j), None)
+        for o in obs:
+            doc = docs[o["name"]]
+            if doc and any(isinstance(e, str) and any(0xDC80 <= ord(c) <= 0xDCFF for c in e) for e in doc["errors"]):
+                count("surr:error text with an undecodable byte")
 
     # ---- specs collected THROUGH symbolic links: right after collection the data file is a regular file holding
     #      the bytes the link resolves to (ground truth: the operating system's own resolution of the source path)
@@ -1423,7 +1542,8 @@ def _run_world(w, desc, patterns, fail, count):
         elif (sp.get("fail") if sp["t"] in ("ffile", "fcmd", "fds") else any(elem_fail_flags(sp))):
             failed_tokens.append("boom-" + sp["name"])
         for tok in failed_tokens:
-            if doc is None or not any(e and tok in e for e in doc["errors"]):
+            # (CalledProcessError shows its arguments as a tuple's repr, where a lone surrogate is spelled \udcxx)
+            if doc is None or not any(e and (tok in e or repr(tok)[1:-1] in e) for e in doc["errors"]):
                 fail("a failed component was not persisted with its error (%s, looked for %r in the document's errors)" % (sp["t"], tok),
                      _case(desc, spec=sp["name"]), None)
 
@@ -1913,7 +2033,9 @@ def run(chk):
                 "link into the root, a link elsewhere under the root or a chain of links, next to regular files; plus archives whose components carry "
                 "0-3 errors recorded during evaluation (further implementations of the registry point raising ContentException / "
                 "CalledProcessError / RuntimeError under contexts of their own) x 0/1 (single) or 0..k (multi, per element) serialization errors, "
-                "serial and pooled; plus failure-frame archives: 2-6 components under a HostContext "
+                "serial and pooled; plus archives over real files whose NAMES are not UTF-8 (lone surrogates in the str): simple_file, first_file, "
+                "glob_file, listdir-driven foreach_collect, raw and text, commands / arguments / container paths / save_as / datasource "
+                "relative_path mentioning them, missing-file and raising specs whose error text names one; plus failure-frame archives: 2-6 components under a HostContext "
                 "with a cleaner, persisted by dr.run_all over the sub-graphs of one broker, destinations shared at random (same file through "
                 "two registry points with different filters, same save_as), a random subset failing at serialization (empty, empty after "
                 "filtering, empty after cleaning, CalledProcessError from load, destination that cannot be opened), order forced by "
@@ -1921,13 +2043,16 @@ def run(chk):
     chk.assumptions = ["json, the UTF-8 codec, the file system and cp are not modelled (a meta_data file is classified by the harness as "
                        "unreadable / not JSON / wrong shape / document before the model sees it)",
                        "content that is not valid Unicode (lone surrogates from surrogateescape) is outside the property's quantifier and the model",
-                       "tuple and list arguments are identified (JSON has no tuples)"]
+                       "tuple and list arguments are identified (JSON has no tuples)",
+                       "lone surrogates travel to the model as opaque private-use symbols; the document codec on them is the stream 'json codec' "
+                       "(jsonEscape / jsonUnescape on code points, theorem json_roundtrip); the hexadecimal spelling of a unit is not modelled"]
     chk.lean()
 
     stream_text(chk, n_text)
     stream_saveas(chk, 150 if quick else 2000)
     stream_prune(chk, 120 if quick else 3000)
     stream_names(chk, 400 if quick else 20000)
+    stream_json(chk, 300 if quick else 20000)
 
     def fail(desc_, case, finding):
         chk.failure(desc_, case, finding=finding)
@@ -1984,9 +2109,9 @@ def run(chk):
 
     # ---- value types beyond the stock ones + second generation; specs collected through symbolic links
     for tag, gen, n_ in (("kinds", gen_kind_world, 40 if quick else 1500), ("links", gen_link_world, 30 if quick else 1500),
-                         ("errs", gen_errs_world, 60 if quick else 2000)):
+                         ("errs", gen_errs_world, 60 if quick else 2000), ("surr", gen_surr_world, 50 if quick else 2000)):
         for wi in range(n_):
-            desc = gen(rng, {"kinds": 300000, "links": 400000, "errs": 500000}[tag] + wi)
+            desc = gen(rng, {"kinds": 300000, "links": 400000, "errs": 500000, "surr": 600000}[tag] + wi)
             pats = gen_patterns(rng, len(desc["specs"]), 1)
             ls, im, kp = run_world(desc, pats, fail, chk.count)
             all_lines += ls; all_impl += im; all_keep += kp
